@@ -26,7 +26,7 @@ package revolut2
 //@   requires p != nil
 //@   modifies nothing
 //@   ensures fresh(result)
-//@   ensures [trusted] @sorted: forall i int, j int :: {result[i], result[j]} 0 <= i && i < j && j < len(result) ==> balKeyLE(result[i].Date, result[i].Commodity, result[j].Date, result[j].Commodity)
+//@   ensures @sorted: forall i int, j int :: {result[i], result[j]} 0 <= i && i < j && j < len(result) ==> balKeyLE(result[i].Date, result[i].Commodity, result[j].Date, result[j].Commodity)
 //@   ensures @keys: forall i int :: {result[i]} 0 <= i && i < len(result) ==> (result[i] in p.balance)
 //
 //@ func (*parser).addBalances
